@@ -398,7 +398,7 @@ func c10() []*Ob {
 }
 
 func isByteSlice(v ssa.Value) bool {
-	return v.Type().Underlying().String() == "[]byte" || v.Type().String() == "[]byte"
+	return v.Type().Underlying().String() == "[]byte" || TypeStr(v.Type()) == "[]byte"
 }
 
 // loopDepth: number of distinct loop headers (blocks that dominate b and are reachable from b).
